@@ -105,6 +105,9 @@ func genC12(g *gen, seed int64) *Program {
 			r.Client = []Op{{K: "send", Msg: g.msg()}, {K: "closesend"}, {K: "recvall"}}
 			r.Handler = []Op{{K: "recvall"}, {K: "send", Msg: g.msg()}, {K: "return"}}
 		}
+		if id > 0 && g.p(0.5) {
+			r.After = 1 + g.pick(id) // sequential calls: resolution must not depend on earlier calls
+		}
 		p.RPCs = append(p.RPCs, r)
 	}
 	// further registered methods nobody calls (near-misses of the calls above)
